@@ -203,7 +203,7 @@ def generate(req):
         c.execute("alter table t_alter add column e")
         c.executemany("insert into t_alter(a,b,c,d,e) values(?,?,?,?,?)",
                       [(g.any_value(), g.text_value(), None, r.randint(0, 3), g.any_value()) for i in range(m)])
-        c.execute("alter table t_alter add column f REAL DEFAULT 1.5")
+        c.execute("alter table t_alter add column f REAL DEFAULT 2")
         c.execute("alter table t_alter add column g DEFAULT -3")
         c.execute("alter table t_alter add column h DEFAULT NULL")
         c.executemany("insert into t_alter(a,h) values(?,?)", [(i, g.any_value()) for i in range(3)])
